@@ -62,6 +62,17 @@ fn one_case(ctx: &Ctx, out: &mut Outcome, rng: &mut Rng, idx: u64) {
     if rng.chance(1, 6) {
         cfg.l0_merge_threshold = rng.usize(2);
     }
+    // ... and the degenerate target sizes / level limits
+    if rng.chance(1, 8) {
+        cfg.l1_target_size = *rng.pick(&[0usize, 1, usize::MAX]);
+        cfg.l2_target_size = *rng.pick(&[0usize, 1, usize::MAX]);
+    }
+    if rng.chance(1, 8) {
+        cfg.max_levels = rng.usize(2);
+    }
+    if rng.chance(1, 16) {
+        cfg.l0_merge_threshold = usize::MAX;
+    }
     let extra_chunks = if pre_cycles > 0 { rng.usize(8) } else { 0 };
     let mut data_rng = rng.fork(1);
     let cfg_desc = format!(
